@@ -20,10 +20,15 @@ N == Len(Trace)
 VARIABLES c,       \* case being consumed
           i,       \* next byte of the case
           errAt,   \* index of the byte on which the specification entered Err / Amb (0 = none)
-          pre      \* state before that byte
-tvars == <<st, hist, c, i, errAt, pre>>
+          pre,     \* state before that byte
+          mark     \* "" or the name of a transition taken earlier in this case at which the real reader is known to leave the
+                   \* specification WITHOUT an immediate observable effect (everything it reports afterwards is a consequence)
+tvars == <<st, hist, c, i, errAt, pre, mark>>
+\* /* ... **/ : the real reader does not see the end of a C comment whose closing */ is preceded by another * (findings/XSEN.md F1);
+\* it goes on reading the rest of the text as comment.  The transition itself has no observable effect.
+SilentDivergence(s, b) == IF s.pc = "CStar" /\ b = 42 THEN "after-star-star" ELSE ""
 
-TraceInit == /\ st = S0 /\ hist = <<>> /\ c = 1 /\ i = 1 /\ errAt = 0 /\ pre = S0
+TraceInit == /\ st = S0 /\ hist = <<>> /\ c = 1 /\ i = 1 /\ errAt = 0 /\ pre = S0 /\ mark = ""
              /\ TLCSet(1, <<>>) /\ TLCSet(2, 0) /\ TLCSet(3, 0) /\ TLCSet(4, <<0, 0, 0, 0>>) /\ TLCSet(5, {})
 
 TFeed == /\ Mode = "judge" /\ c <= N /\ i <= Len(Trace[c].b) /\ ~Dead(st)
@@ -31,11 +36,13 @@ TFeed == /\ Mode = "judge" /\ c <= N /\ i <= Len(Trace[c].b) /\ ~Dead(st)
             /\ st' = Step(st, b)
             /\ errAt' = IF Dead(Step(st, b)) THEN i ELSE 0
             /\ pre' = st
+            /\ mark' = IF mark = "" THEN SilentDivergence(st, b) ELSE mark
          /\ i' = i + 1 /\ UNCHANGED <<hist, c>>
 
 Bytes == Trace[c].b
 \* the name of a position: the comment return position / key-ness is part of it
 Extra(s) == IF s.pc \in {"Slash", "LCom", "CCom", "CStar"} THEN s.ret
+            ELSE IF s.pc = "Tok" /\ s.bom > 0 THEN "bom"
             ELSE IF s.pc \in {"Tok", "Str", "Esc", "U"} /\ s.sk = "k" THEN "k"
             ELSE IF s.pc \in {"After", "Sep"} /\ s.ls THEN "s"
             ELSE IF s.pc = "Tok" /\ s.u8 > 0 THEN "u8"
@@ -45,7 +52,7 @@ Extra(s) == IF s.pc \in {"Slash", "LCom", "CCom", "CStar"} THEN s.ret
 Locus == IF errAt > 0 THEN <<pre.pc, Extra(pre), Rep(Bytes[errAt]), TopOf(pre)>> ELSE <<st.pc, Extra(st), -1, TopOf(st)>>
 V == Verdict(st)
 
-Rec(g, kind, loc) == [i |-> c, as |-> g.as, kind |-> kind, loc |-> loc, m |-> IF g.r = 2 THEN g.m ELSE ""]
+Rec(g, kind, loc) == [i |-> c, as |-> g.as, kind |-> kind, loc |-> loc, m |-> IF g.r = 2 THEN g.m ELSE "", mark |-> mark]
 JudgeGroup(g, d) ==
   IF g.r = 2 THEN <<Rec(g, "panic", Locus)>>
   ELSE IF V = "rej" /\ g.r = 1 THEN <<Rec(g, "accepts-invalid", Locus)>>
@@ -62,7 +69,7 @@ Count == LET h == TLCGet(4) IN
            h[4] + (IF V = "acc" THEN Cardinality({k \in 1..Len(Trace[c].o) : Trace[c].o[k].r = 1 /\ "v" \in DOMAIN Trace[c].o[k]}) ELSE 0)>>
 
 TEnd == /\ Mode = "judge" /\ c <= N /\ (i > Len(Trace[c].b) \/ Dead(st))
-        /\ c' = c + 1 /\ i' = 1 /\ st' = S0 /\ errAt' = 0 /\ pre' = S0 /\ UNCHANGED hist
+        /\ c' = c + 1 /\ i' = 1 /\ st' = S0 /\ errAt' = 0 /\ pre' = S0 /\ mark' = "" /\ UNCHANGED hist
         /\ LET j == Judge IN
            /\ (IF j = <<>> \/ Len(TLCGet(1)) >= MaxBad THEN TRUE ELSE TLCSet(1, TLCGet(1) \o j))
            /\ (IF j = <<>> THEN TRUE ELSE TLCSet(3, TLCGet(3) + Len(j)))
@@ -76,7 +83,7 @@ Walk(s, bs, k) == IF k > Len(bs) THEN <<>>
                   ELSE LET n == Step(s, bs[k]) IN
                        <<[pc |-> s.pc, ex |-> Extra(s), cls |-> Rep(bs[k]), top |-> TopOf(s), comp |-> IF Dead(n) THEN <<>> ELSE Completion(n)]>>
                        \o Walk(n, bs, k + 1)
-TWalk == /\ Mode = "walk" /\ c <= N /\ c' = N + 1 /\ UNCHANGED <<st, hist, i, errAt, pre>>
+TWalk == /\ Mode = "walk" /\ c <= N /\ c' = N + 1 /\ UNCHANGED <<st, hist, i, errAt, pre, mark>>
          /\ TLCSet(1, [j \in 1..N |-> [id |-> Trace[j].id, steps |-> Walk(S0, Trace[j].b, 1)]])
          /\ TLCSet(2, N)
 
